@@ -46,7 +46,7 @@ impl AtomicOp for Op {
 
     fn dgr(self) -> AtomicOpDispatch {
         AtomicOpDispatch::RYY(Self {
-            phase: -self.phase,
+            phase: self.phase.conj(),
             ..self
         })
     }
